@@ -141,7 +141,7 @@ func (h *genericContextualizer) Execute(ctx heimdall.Context, sub *subject.Subje
 	}
 
 	if h.ttl > 0 {
-		cacheKey = h.calculateCacheKey(sub, vals, payload)
+		cacheKey = h.calculateCacheKey(ctx, sub, vals, payload)
 		if entry, err := cch.Get(ctx.AppContext(), cacheKey); err == nil {
 			var cd contextualizerData
 
@@ -352,6 +352,7 @@ func (h *genericContextualizer) readResponse(ctx heimdall.Context, resp *http.Re
 }
 
 func (h *genericContextualizer) calculateCacheKey(
+	ctx heimdall.Context,
 	sub *subject.Subject,
 	values map[string]string,
 	payload string,
@@ -366,6 +367,18 @@ func (h *genericContextualizer) calculateCacheKey(
 	hash.Write(stringx.ToBytes(h.id))
 	hash.Write(stringx.ToBytes(strings.Join(h.fwdHeaders, ",")))
 	hash.Write(stringx.ToBytes(strings.Join(h.fwdCookies, ",")))
+
+	// the values of the forwarded headers and cookies are part of the request sent to the endpoint
+	for _, name := range h.fwdHeaders {
+		hash.Write(stringx.ToBytes(ctx.Request().Header(name)))
+		hash.Write([]byte{0})
+	}
+
+	for _, name := range h.fwdCookies {
+		hash.Write(stringx.ToBytes(ctx.Request().Cookie(name)))
+		hash.Write([]byte{0})
+	}
+
 	hash.Write(stringx.ToBytes(payload))
 	hash.Write(ttlBytes)
 	hash.Write(sub.Hash())
